@@ -204,6 +204,28 @@ impl PropCtx {
         }
     }
 
+    /// Counters collected by other processes (fuzz workers): `evaluations` cases, their non-trivial fingerprints and labels.
+    pub fn record_bulk(&self, sub: &str, evaluations: u64, nontrivial: &[String], labels: &BTreeMap<String, u64>, samples: Vec<Value>) {
+        let mut g = self.inner.lock().unwrap();
+        if !g.subs.contains_key(sub) {
+            g.order.push(sub.to_string());
+        }
+        let s = g.subs.entry(sub.to_string()).or_default();
+        s.evaluations += evaluations;
+        for fp in nontrivial {
+            s.nontrivial.insert(h64(fp));
+        }
+        for (k, n) in labels {
+            *s.labels.entry(k.clone()).or_default() += n;
+        }
+        for mut smp in samples {
+            if s.samples.len() < 4 {
+                truncate_value(&mut smp, 600);
+                s.samples.push(smp);
+            }
+        }
+    }
+
     pub fn record_excluded(&self, sub: &str, known_id: &str) {
         let mut g = self.inner.lock().unwrap();
         *g.known_hit.entry(known_id.to_string()).or_default() += 1;
